@@ -373,6 +373,34 @@ where
 
 //=================================================================
 
+#[cfg(probminhash_verif)]
+impl<D, H> ProbMinHash3<D, H>
+where
+    D: Copy + Eq + Debug + Hash,
+    H: Hasher + Default,
+{
+    /// verification hook : read-only copy of the per-position register values
+    pub fn verif_registers(&self) -> Vec<f64> {
+        (0..self.m).map(|k| self.maxvaluetracker.get_value(k)).collect()
+    }
+}
+
+#[cfg(probminhash_verif)]
+impl<D, H> ProbMinHash3a<D, H>
+where
+    D: Copy + Eq + Debug + Hash,
+    H: Hasher + Default,
+{
+    /// verification hook : read-only copy of the per-position register values
+    pub fn verif_registers(&self) -> Vec<f64> {
+        (0..self.m).map(|k| self.maxvaluetracker.get_value(k)).collect()
+    }
+    /// verification hook : number of items waiting for the second pass
+    pub fn verif_pending(&self) -> usize {
+        self.to_be_processed.len()
+    }
+}
+
 #[cfg(test)]
 mod tests {
 
